@@ -189,7 +189,7 @@ Lemma c12_py_multi_body uc cfg st0 pd ds st :
   py_multi_decls uc cfg st0 pd = Ok (ds, st) -> c12_py_dom cfg (items_of pd) = true ->
   c12_ple cfg st0 st /\
   (forall u, In u (flat_map (c12_py_decl_uses (c12_py_tv_vocab (items_of pd))) ds) ->
-     c12_py_ok cfg (c12_py_tv_vocab (items_of pd)) (flat_map c12_item_fields (items_of pd)) u st) /\
+     c12_py_ok (c12_py_tv_vocab (items_of pd)) u st) /\
   (forall it, In it (items_of pd) -> c12_py_Ri cfg it st).
 Proof.
   unfold py_multi_decls. intros H Hdom. apply c12_bind_ok in H as (items & Et & H).
@@ -197,7 +197,7 @@ Proof.
   destruct (mmapM (py_decl_of uc cfg) items st0) as [[dss st']| |] eqn:E; try discriminate H.
   injection H as <- <-.
   pose proof (c12_py_items_ok cfg pd items Et Hdom) as Hok.
-  destruct (c12_py_items_flag uc cfg _ _ _ Hok _ _ _ E) as (L & Q & R).
+  destruct (c12_py_items_flag uc cfg (c12_py_tv_vocab (items_of pd)) _ Hok _ _ _ E) as (L & Q & R).
   split; [exact L|]. split; [exact Q|].
   rewrite Forall_forall in R. intros it Hit. apply R. eapply Permutation_in; [apply Permutation_sym; exact Et|exact Hit].
 Qed.
@@ -220,33 +220,19 @@ Qed.
 (* ONE FILE, from any state satisfying the invariant: the judgement of c12_python *)
 Theorem c12_py_file_from uc cfg st0 pd ds st :
   c12_py_state_ok st0 = true ->
-  py_multi_decls uc cfg st0 pd = Ok (ds, st) -> c12_py_dom cfg (items_of pd) = true -> c12_py_known cfg pd = None ->
+  py_multi_decls uc cfg st0 pd = Ok (ds, st) -> c12_py_dom cfg (items_of pd) = true ->
   forall u, In u (c12_py_uses (c12_py_tv_vocab (items_of pd)) ds (py_type_variables st) (c12_py_fns st)) ->
     In u (c12_py_defs (py_type_variables st) (c12_py_fns st) (c12_py_imported st)).
 Proof.
-  intros Hinv H Hdom Hk u Hu.
+  intros Hinv H Hdom u Hu.
   pose proof (c12_py_state_ok_step _ _ _ _ _ _ Hinv H Hdom) as Hinv'.
   apply c12_py_state_ok_spec in Hinv' as [J1 J2].
   destruct (c12_py_multi_body _ _ _ _ _ _ H Hdom) as (L & Q & Rin).
-  unfold c12_py_known in Hk.
-  destruct (c12_py_alias_typevar (items_of pd)) eqn:Ka; [discriminate Hk|].
-  destruct (c12_py_default_translation (py_type_mappings cfg) (items_of pd)) eqn:Kd; [discriminate Hk|]. clear Hk.
   (* (a) every generic parameter name of the crate has its TypeVar *)
   assert (Ha : forall g, In g (c12_py_tv_vocab (items_of pd)) -> In g (py_type_variables st)).
-  { intros g Hg. apply (c12_py_vocab_declared _ Ka) in Hg. apply c12_py_tv_declared_in in Hg as (it & Hit & Hg).
+  { intros g Hg. apply c12_py_tv_vocab_in in Hg as (it & Hit & Hg).
     destruct (Rin it Hit) as (_ & _ & T). exact (T g Hg). }
-  (* (b) the functions an Annotated field names are written *)
-  assert (Hb : forall f p, In f (flat_map c12_item_fields (items_of pd)) -> c12_py_wrapped f = true ->
-                           c12_py_custom (py_type_mappings cfg) (fty f) = Some p -> In p (py_custom_types st)).
-  { intros f p Hf Hw Hp. unfold c12_py_default_translation in Kd. pose proof (c12_existsb_false _ _ Kd f Hf) as Kf.
-    cbv beta in Kf. rewrite Hw, Hp in Kf. cbn [andb] in Kf. apply negb_false_iff in Kf. apply orb_true_iff in Kf as [Kf|Kf].
-    - apply existsb_exists in Kf as (g & Hg & Kg). apply andb_true_iff in Kg as [Wg Cg]. apply negb_true_iff in Wg.
-      destruct (c12_py_custom (py_type_mappings cfg) (fty g)) as [q|] eqn:Eq; [|discriminate Cg].
-      apply str_eqb_eq in Cg. subst q.
-      apply in_flat_map in Hg as (it & Hit & Hg). destruct (Rin it Hit) as (_ & RF & _).
-      unfold c12_py_Rfs in RF. rewrite Forall_forall in RF. exact (proj2 (RF g Hg) Wg p Eq).
-    - apply c12_mem_str_In in Kf. apply in_flat_map in Kf as (t & Ht & Kf). apply in_flat_map in Ht as (it & Hit & Ht).
-      destruct (Rin it Hit) as (RT & _ & _). rewrite Forall_forall in RT. exact (RT t Ht p Kf). }
+  (* (b) the functions an Annotated field names are written: their type is in the translation set (c12_py_fnok) *)
   unfold c12_py_uses in Hu. unfold c12_py_defs. rewrite !in_app_iff. apply in_app_iff in Hu as [Hu|Hu].
   - (* (c) the header's own uses: by the invariant at the state reached *)
     unfold c12_py_header_uses in Hu. apply in_app_iff in Hu as [Hu|Hu].
@@ -255,19 +241,18 @@ Proof.
     + destruct (mem_str (lit "parse_rfc3339") (c12_py_fns st)) eqn:Em; [|destruct Hu]. destruct Hu as [<-|[]].
       apply c12_mem_str_In, c12_py_rfc_dt in Em. right. right. exact (J2 Em).
   - destruct (Q u Hu) as [A|[A|[A|A]]]; auto.
-    destruct A as (p & ct & Ect & Hname & [Hp|(f & Hf & Hw & Hp)]).
-    + right. left. eapply c12_py_fns_in; eauto.
-    + right. left. eapply c12_py_fns_in; eauto.
+    destruct A as (p & ct & Ect & Hname & Hp).
+    right. left. eapply c12_py_fns_in; eauto.
 Qed.
 
 (* the same on the observation *)
 Theorem c12_python_multi_file uc cfg st0 pd uses defs :
   c12_py_state_ok st0 = true ->
   c12_py_observe_multi uc cfg st0 pd = Ok (uses, defs) -> c12_py_dom cfg (items_of pd) = true ->
-  c12_py_known cfg pd = None -> c12_good uses defs = true.
+  c12_good uses defs = true.
 Proof.
-  unfold c12_py_observe_multi. intros Hinv H Hdom Hk. apply c12_bind_ok in H as ([ds st] & E & H).
-  injection H as <- <-. cbn [fst snd]. apply c12_good_spec. exact (c12_py_file_from uc cfg st0 pd ds st Hinv E Hdom Hk).
+  unfold c12_py_observe_multi. intros Hinv H Hdom. apply c12_bind_ok in H as ([ds st] & E & H).
+  injection H as <- <-. cbn [fst snd]. apply c12_good_spec. exact (c12_py_file_from uc cfg st0 pd ds st Hinv E Hdom).
 Qed.
 
 (* THE RUN.  The generator in the shape generate_crates takes. *)
@@ -296,7 +281,7 @@ Theorem c12_multi_python uc cfg st0 plan files fin :
        text = py_begin_file cfg ++ py_write_all_imports st_i' ++ py_write_custom_translations st_i' ++
               concat (map py_render_decl ds) /\
        c12_py_observe_multi uc cfg st_i (op_data p) = Ok (uses, defs) /\
-       (c12_py_known cfg (op_data p) = None -> c12_good uses defs = true)) /\
+       c12_good uses defs = true) /\
   (forall st', fin = Ok st' -> Forall (py_plan_dom cfg) plan -> c12_py_state_ok st' = true).
 Proof.
   intros Hinv H. split.
@@ -309,7 +294,7 @@ Proof.
     split; [exact Hp|]. split; [exact Hf|]. split; [exact Hi|]. split; [exact Hg|]. split; [exact Eds|].
     split; [exact Etext|]. split.
     + unfold c12_py_observe_multi. rewrite Eds. cbn [bind fst snd]. reflexivity.
-    + intros Hk. apply c12_good_spec. exact (c12_py_file_from uc cfg st_i (op_data p) ds st_i' Hi Eds Hd Hk).
+    + apply c12_good_spec. exact (c12_py_file_from uc cfg st_i (op_data p) ds st_i' Hi Eds Hd).
   - intros st' -> Hdom.
     exact (cm_crates_final (py_multi_gen uc cfg) (fun st => c12_py_state_ok st = true) (py_plan_dom cfg)
              (c12_py_gen_step uc cfg) plan st0 files st' Hinv Hdom H).
